@@ -37,13 +37,20 @@ def main():
             repo = os.path.join(S, 'repo')
             os.makedirs(repo)
             subprocess.check_call("cd /repo && git ls-files -z | xargs -0 cp --parents -t %s && cp dimarray/_version.py %s/dimarray/" % (repo, repo), shell=True)
-            p = os.path.join(repo, m['file'])
-            s = open(p).read()
-            if s.count(m['old']) != m.get('count', 1):
-                print("MUTANT %s: pattern occurs %d times (expected %d) - skipped" % (m['id'], s.count(m['old']), m.get('count', 1)))
-                res.append((m['id'], 'stale'))
-                continue
-            open(p, 'w').write(s.replace(m['old'], m['new']))
+            if 'revert' in m:
+                r = subprocess.run("cd %s && git -C /repo show %s -- dimarray | patch -R -p1 -s --no-backup-if-mismatch" % (repo, m['revert']), shell=True, stdout=subprocess.PIPE, stderr=subprocess.STDOUT)
+                if r.returncode != 0:
+                    print("MUTANT %s: revert does not apply - skipped (%s)" % (m['id'], r.stdout.decode()[-100:].strip()))
+                    res.append((m['id'], 'stale'))
+                    continue
+            else:
+                p = os.path.join(repo, m['file'])
+                s = open(p).read()
+                if s.count(m['old']) != m.get('count', 1):
+                    print("MUTANT %s: pattern occurs %d times (expected %d) - skipped" % (m['id'], s.count(m['old']), m.get('count', 1)))
+                    res.append((m['id'], 'stale'))
+                    continue
+                open(p, 'w').write(s.replace(m['old'], m['new']))
             tst = ''
             if tests:
                 ok = baseline_pass(repo)
